@@ -61,6 +61,150 @@ LeafText(ctx, c) ==
     [] ctx = "cell" -> <<"SP">> \o Quote(c) \o <<"NL">>
     [] OTHER -> Quote(c)
 
+(* ---- NESTED embedding contexts x expansion options ----------------------------------
+   A nested context is a sequence of frames, outermost first, around one paired nowiki;
+   all frame text is written as one-character atoms (entities are one atom each), so a
+   real output tokenised into characters and entities compares directly.
+   What expand() does with a frame depends on the MODE it is met in
+     "all"  everything is expanded (expand_all of expand_recurse),
+     "sel"  pre_expand: only selected templates are expanded, parser functions always,
+     "raw"  the frame sits inside something that is EMITTED RAW (a construct disabled by
+            <nowiki/>, a parser function under expand_parserfns=False, #invoke under
+            expand_invoke=False): its stored arguments are written out as they were,
+            only the paired nowiki inside still has to come out entity-quoted,
+   and on the options o = [pfn, inv : BOOLEAN, sel : "all" | "none" | "T1"]
+   (expand_parserfns, expand_invoke, pre_expand/templates_to_expand).               *)
+Frames == {"text", "link", "ext", "T1", "if", "uc", "inv", "dt", "da", "dl", "ad", "tsib"}
+NestOpts == [pfn : BOOLEAN, inv : BOOLEAN, sel : {"all", "none", "T1"}]
+DefaultOpts == [pfn |-> TRUE, inv |-> TRUE, sel |-> "all"]
+TopMode(o) == IF o.sel = "all" THEN "all" ELSE "sel"
+
+FPre(f) ==
+  CASE f = "text" -> <<"p">>
+    [] f = "link" -> <<"[", "[", "a", "|">>
+    [] f = "ext"  -> <<"[", "h", "t", "t", "p", "s", ":", "/", "/", "x", ".", "y", "SP">>
+    [] f = "T1"   -> <<"{", "{", "T", "1", "|">>
+    [] f = "if"   -> <<"{", "{", "#", "i", "f", ":", "1", "|">>
+    [] f = "uc"   -> <<"{", "{", "u", "c", ":">>
+    [] f = "inv"  -> <<"{", "{", "#", "i", "n", "v", "o", "k", "e", ":", "m", "|", "f", "|">>
+    [] f = "dt"   -> <<"{", "{", "<", "n", "o", "w", "i", "k", "i", "/", ">", "t", "|">>       \* {{<nowiki/>t|
+    [] f = "da"   -> <<"{", "{", "{", "<", "n", "o", "w", "i", "k", "i", "/", ">", "p", "|">>  \* {{{<nowiki/>p|
+    [] f = "dl"   -> <<"[", "<", "n", "o", "w", "i", "k", "i", "/", ">", "[", "a", "|">>       \* [<nowiki/>[a|
+    [] f = "ad"   -> <<"{", "{", "{", "p", "|">>      \* argument reference outside any template: its default
+    [] f = "tsib" -> <<>>                             \* a template call NEXT TO the inner construct
+FPost(f) ==
+  CASE f = "text" -> <<"q">>
+    [] f \in {"link", "dl"} -> <<"]", "]">>
+    [] f = "ext"  -> <<"]">>
+    [] f \in {"T1", "if", "uc", "inv", "dt"} -> <<"}", "}">>
+    [] f \in {"da", "ad"} -> <<"}", "}", "}">>
+    [] f = "tsib" -> <<"{", "{", "T", "1", "|", "s", "}", "}">>
+
+NWOut == <<"<", "n", "o", "w", "i", "k", "i", "SP", "/", ">">>      \* <nowiki/> is rendered "<nowiki />"
+\* a construct disabled by <nowiki/> comes out with its own markup as entities
+EntPre(f) ==
+  CASE f = "dt" -> <<"&lbrace;", "&lbrace;">> \o NWOut \o <<"t", "&vert;">>
+    [] f = "da" -> <<"&lbrace;", "&lbrace;", "&lbrace;">> \o NWOut \o <<"p", "&vert;">>
+    [] f = "dl" -> <<"&lsqb;", "&lsqb;", "a", "&vert;">>
+EntPost(f) ==
+  CASE f = "dt" -> <<"&rbrace;", "&rbrace;">>
+    [] f = "da" -> <<"&rbrace;", "&rbrace;", "&rbrace;">>
+    [] f = "dl" -> <<"&rsqb;", "&rsqb;">>
+SibCall == <<"{", "{", "T", "1", "|", "s", "}", "}">>
+\* <strong class="error">Template loop detected: [[:Template:T1]]</strong>
+LoopErr == <<"<", "s", "t", "r", "o", "n", "g", "SP", "c", "l", "a", "s", "s", "=", "\"", "e", "r", "r", "o", "r", "\"", ">",
+             "T", "e", "m", "p", "l", "a", "t", "e", "SP", "l", "o", "o", "p", "SP", "d", "e", "t", "e", "c", "t", "e", "d", ":", "SP",
+             "[", "[", ":", "T", "e", "m", "p", "l", "a", "t", "e", ":", "T", "1", "]", "]", "<", "/", "s", "t", "r", "o", "n", "g", ">">>
+
+(* The text under expansion is a sequence of ITEMS: atoms [t |-> "a", v] and stored
+   constructs ("cookies") [t |-> "n", f, kids]; f = "N" is the stored paired nowiki,
+   f = "sib" the sibling call {{T1|s}}.  One operator per step of the real code:
+     Build     _encode: innermost first, every construct becomes a stored item
+     ER / ER1  expand_recurse(coded, parent, expand_all): m = "all" | "sel" (expand_all or not),
+               inb = a body of T1 is being expanded and no argument evaluation lies between
+               (detect_expand_template_loop); something emitted raw EXPOSES its stored
+               arguments: they are met again when the text passes through the body of an
+               enclosing expanded template (the second ER over "(" v ")")
+     EA / EA1  expand_args(coded, {}) for an argument reference outside any template
+     Fin       _finalize_expand: what is still stored is written out, repeatedly, until
+               nothing stored is left; the paired nowiki becomes Quote(c)                *)
+At(seq) == [i \in 1..Len(seq) |-> [t |-> "a", v |-> seq[i]]]
+Node(f, kids) == [t |-> "n", f |-> f, kids |-> kids]
+RECURSIVE Build(_)
+Build(fs) ==
+  IF fs = <<>> THEN <<Node("N", <<>>)>>
+  ELSE IF fs[1] = "tsib" THEN Build(Tail(fs)) \o <<Node("sib", <<>>)>>
+  ELSE IF fs[1] = "text" THEN At(<<"p">>) \o Build(Tail(fs)) \o At(<<"q">>)
+  ELSE <<Node(fs[1], Build(Tail(fs)))>>
+
+RECURSIVE EA(_), EA1(_)
+EA(items) == IF items = <<>> THEN <<>> ELSE EA1(items[1]) \o EA(Tail(items))
+EA1(it) ==
+  IF it.t = "a" THEN <<it>>
+  ELSE CASE it.f \in {"N", "dt", "da", "dl"} -> <<it>>                        \* nowiki flag: kept as it is
+         [] it.f \in {"T1", "sib", "if", "uc", "inv"} -> <<Node(it.f, EA(it.kids))>>  \* stored again with its arguments processed
+         [] it.f = "ad" -> EA(it.kids)                                        \* no such argument: the default value
+         [] it.f \in {"link", "ext"} -> At(FPre(it.f)) \o EA(it.kids) \o At(FPost(it.f))   \* written out as text
+
+Selected(m, o) == m = "all" \/ o.sel = "T1"
+RECURSIVE ER(_, _, _, _), ER1(_, _, _, _)
+ER(items, m, inb, o) == IF items = <<>> THEN <<>> ELSE ER1(items[1], m, inb, o) \o ER(Tail(items), m, inb, o)
+ER1(it, m, inb, o) ==
+  IF it.t = "a" THEN <<it>>
+  ELSE CASE it.f = "N" -> <<it>>
+         [] it.f \in {"dt", "da", "dl"} -> At(EntPre(it.f)) \o it.kids \o At(EntPost(it.f))      \* raw: arguments exposed
+         [] it.f \in {"link", "ext"} -> At(FPre(it.f)) \o ER(it.kids, m, inb, o) \o At(FPost(it.f))
+         [] it.f \in {"T1", "sib"} ->
+              (IF ~Selected(m, o)
+               THEN (IF it.f = "sib" THEN At(SibCall) ELSE At(FPre("T1")) \o ER(it.kids, m, inb, o) \o At(FPost("T1")))
+               ELSE IF inb THEN At(LoopErr)
+               ELSE ER(At(<<"(">>) \o (IF it.f = "sib" THEN At(<<"s">>) ELSE ER(it.kids, "all", FALSE, o)) \o At(<<")">>), m, TRUE, o))
+         [] it.f \in {"if", "uc"} ->
+              (IF o.pfn THEN ER(it.kids, "all", inb, o)                                        \* #if:1|X -> X ; uc:X -> X (X opaque)
+               ELSE At(FPre(it.f)) \o it.kids \o At(FPost(it.f)))                               \* expand_parserfns=False: raw
+         [] it.f = "inv" -> At(FPre("inv")) \o it.kids \o At(FPost("inv"))                      \* universe keeps ~o.pfn \/ ~o.inv: raw
+         [] it.f = "ad" -> ER(EA(it.kids), m, inb, o)
+
+RECURSIVE Fin(_, _)
+Fin(items, c) ==
+  IF items = <<>> THEN <<>>
+  ELSE LET it == items[1] IN
+       (IF it.t = "a" THEN <<it.v>>
+        ELSE CASE it.f = "N" -> Quote(c)
+               [] it.f = "sib" -> SibCall
+               [] it.f \in {"dt", "da", "dl"} -> EntPre(it.f) \o Fin(it.kids, c) \o EntPost(it.f)
+               [] OTHER -> FPre(it.f) \o Fin(it.kids, c) \o FPost(it.f))
+       \o Fin(Tail(items), c)
+
+RECURSIVE NInput(_, _)
+NInput(fs, c) == IF fs = <<>> THEN NW(c) ELSE FPre(fs[1]) \o NInput(Tail(fs), c) \o FPost(fs[1])
+NExpanded(fs, o, c) == Fin(ER(Build(fs), TopMode(o), FALSE, o), c)
+
+\* Bracket runs that are ambiguous wikitext (which "]]" closes what): a disabled link inside
+\* a link or disabled link, an external link whose "]" runs into the "]]" of a link.  The
+\* encoder pairs brackets leftmost-first there; the model does not predict the rendering of
+\* the frames then, only what the statement demands (Demand below).
+Ambiguous(fs) == \/ \E i, j \in 1..Len(fs) : i < j /\ fs[i] \in {"link", "dl"} /\ fs[j] = "dl"
+                 \/ \E i \in 1..(Len(fs) - 1) : fs[i] \in {"link", "dl"} /\ fs[i + 1] = "ext"
+\* must the quoted payload be in the output?  Not where the library's template-loop error
+\* replaces a call of T1 that encloses it (the model says so / more than one T1 around it)
+Demand(fs, o, c) == IF Ambiguous(fs) THEN Cardinality({ i \in 1..Len(fs) : fs[i] = "T1" }) <= 1
+                    ELSE \E i \in 0..(Len(NExpanded(fs, o, c)) - Len(Quote(c))) : SubSeq(NExpanded(fs, o, c), i + 1, i + Len(Quote(c))) = Quote(c)
+
+\* the universe: "uc" transforms its argument, so it is only used directly around the nowiki;
+\* options are varied only where some frame of the context looks at them
+HasF(fs, S) == \E i \in 1..Len(fs) : fs[i] \in S
+NestStacks(d) == { fs \in UNION { [1..n -> Frames] : n \in 1..d } : \A i \in 1..Len(fs) : fs[i] = "uc" => i = Len(fs) }
+OptsFor(fs) == { o \in NestOpts : /\ (~HasF(fs, {"if", "uc", "inv"}) => o.pfn)
+                                  /\ (~HasF(fs, {"inv"}) => o.inv)
+                                  /\ (HasF(fs, {"inv"}) => ~o.pfn \/ ~o.inv)
+                                  /\ (~HasF(fs, {"T1", "tsib"}) => o.sel = "all") }
+
+\* the statement's own observables on a tokenised real output ("CK" = any character of the
+\* placeholder range U+10203D..U+10FFF0): no placeholder; the quoted payload is there
+NoPlaceholder(out) == \A i \in 1..Len(out) : out[i] # "CK"
+Contains(out, q) == \E i \in 0..(Len(out) - Len(q)) : SubSeq(out, i + 1, i + Len(q)) = q
+
 (* ---- comments: a document is a sequence of pieces [k |-> "t"|"c", s |-> chars];
         the comment and the line break directly before it are deleted ---- *)
 RECURSIVE Strip(_)
